@@ -24,7 +24,7 @@ LEVEL = {
  'C13': ('Lean 4 theorems: char_pos_to_line = (line, column) for every string and offset; every token text is the slice of the source at its recorded offset; every node position is the offset of the first token of the node and the node text starts with it (induction over the reader); every text leaf of a parsed tree with a recorded position is the slice of the source there (C13.text_leaf_slice), hence every match search_regex reports stands at the reported offset for ANY matcher function (C13.search_regex_offsets; the regex engine is a parameter, made-up bare arguments at position -1 excluded by a proved counterexample).', '0.5, 5 C13'),
  'C14': ('Lean 4 theorems over all trees: rename/set-string/set-args are splices of exactly that span (both \\begin and \\end), search sees the change; re-parse clause PROVED for renaming commands and environments of grammar documents (C14G.rename_*_reparse_of_source: the new text re-parses, both tolerances, to the edited tree of the Edit model up to positions; side conditions sameRole/envRole each shown necessary), explored for .string/.args', '5 C14'),
  'C15': ('Lean 4 theorem: any history of edits refines the string-splice reference model (induction over the operation list); tree well-formedness preserved; in-place TexArgs operations inside histories are compared as .args assignments of the list-level result (C18 refinement + C14.setArgs_splice)', '5 C15'),
- 'C16': ("Lean 4 theorems: for ALL inputs, when no spacer was dropped the output is the input, hence a fixed point, and a second pass never grows; for every well-formed document of the grammar written with arbitrary spacers between commands and arguments: the serialisation is the text of the squeezed document, which is well-formed and separated (under the property's sizing-prefix side condition), so re-parsing gives the same shape and text (C16G.reparse_fixed_point_of_source). AND FOR ALL STRICTLY PARSING INPUTS (C16.reparse_fixed_point_all): the grammar is exhaustive (C02.grammar_exhaustive / parse_sound: every representable strict parse is the tree of a well-formed document with exactly these tokens - an invariant of all twelve reader functions), so the fixed-point theorem applies to every input that parses strictly; remaining side conditions are the property's own (no NUL/DEL, brace-delimited mandatory arguments, no bare sizing prefix), finding F4b (blank-padded environment names) and single-token environment names. The same lift gives the C14 re-parse clause (rename, .string) and C09-C11 statements for every strictly parsing representable input (Properties/AllInputs.lean).", '0.5, 5 C16'),
+ 'C16': ("Lean 4 theorems: for ALL inputs, when no spacer was dropped the output is the input, hence a fixed point, and a second pass never grows; for every well-formed document of the grammar written with arbitrary spacers between commands and arguments: the serialisation is the text of the squeezed document, which is well-formed and separated (under the property's sizing-prefix side condition), so re-parsing gives the same shape and text (C16G.reparse_fixed_point_of_source). AND FOR ALL STRICTLY PARSING INPUTS (C16.reparse_fixed_point_all): the grammar is exhaustive (C02.grammar_exhaustive / parse_sound: every representable strict parse is the tree of a well-formed document with exactly these tokens - an invariant of all twelve reader functions), so the fixed-point theorem applies to every input that parses strictly; remaining side conditions are the property's own (no NUL/DEL, brace-delimited mandatory arguments, no bare sizing prefix), finding F4b (blank-padded environment names) and single-token environment names (continuation arguments after fixed-signature commands are covered). The same lift gives the C14 re-parse clause (rename, .string) and C09-C11 statements for every strictly parsing representable input (Properties/AllInputs.lean).", '0.5, 5 C16'),
  'C17': ('Lean 4 theorems: chunk flattening, prefix-free sizing table => iteration-order independence, parse is a function; agreement of the implementation across input forms, hash seeds, interleavings is translation validation by the check', '5 C17'),
  'C18': ('Lean 4 refinement: every TexArgs operation with every index refines Python list semantics, invariant preserved, lifted to all histories; coercion and serialisation theorems; extend by a TexArgs object (own slice, the list itself, another list) included; negative theorems for the unrepaired code', '5 C18'),
  'C19': ('Lean 4 theorems for every string: categorize is index-wise, tokens partition the input up to ignored characters, no empty token, true offsets, tokenizer always makes progress', '5 C19'),
